@@ -231,6 +231,8 @@ impl VariableMap for TransformerContext {
     }
 
     fn get_rng(&self) -> &RefCell<Pcg32> {
+        #[cfg(feature = "verif")]
+        crate::verif::rng_tick();
         &self.rng
     }
 }
@@ -403,6 +405,16 @@ impl TransformerContext {
             return Err(SvgdxError::from("Depth must be positive"));
         }
         Ok(())
+    }
+
+    #[cfg(feature = "verif")]
+    pub(crate) fn verif_heights(&self) -> (usize, usize, u32, bool) {
+        (
+            self.scope_stack.len(),
+            self.element_stack.len(),
+            self.current_depth,
+            self.in_specs,
+        )
     }
 
     pub fn get_top_element(&self) -> Option<SvgElement> {
